@@ -116,3 +116,6 @@ DET.update({
  "C03-f": (False, "C03 quick: invariant=RequiredEncOn policySource=hook policy=*/integREQUIRED deviation=OmitECDH|TruncateECDH|RandomECDH|NoCommonCipher role=server", "HandshakeEvil.tla: policy source of the server (base config / ServerConfigForCommand hook over a weak base), integrity-only REQUIRED cells in the quick tier for fresh server handshakes; Bug PerCommandIntegrityDropped"),
  "C08-f": (False, "C08 quick: spec=ItemSplit reader=parse spacing=leadingBlank|blanksBeforeEq what='attribute set' / spacing=tight eqInValue=true what=error", "ItemSplit.tla (the parsing receiver's Name = Value splitter over token texts: six spacing classes, '=' inside the value; invariant SplitAtFirstEq; Bugs CutAtSpacedEq, CutAtLastEq); 1 502 pre-rendered items sent through the raw senders and read by all receivers"),
 })
+DET.update({
+ "C16-f": (False, "C16 quick: action=Import field=handed-out-claim addr=pctescape|pctverbs (the claim id handed out by MintClaimSession cannot be imported)", "ClaimSession.tla address shapes pctescape / pctverbs; the replayer imports the handed-out claim id even when its text already differs"),
+})
